@@ -2,6 +2,10 @@
 
   roundtrip    container x shape x stored dtype (point) x layout/key x access path x requested
                dtype (inner loop); files written with the container's own writer
+  sph_reads    SPHERE (the one container whose reader is the library's own fixed-size read loop):
+               byte order x channels 1..7 x frame counts on both sides of each of the first four
+               16384-byte read boundaries x header size/layout x every access path (incl.
+               wds_read_signal) x requested dtype
   errors       unrecognised names => IOError; stream without force_as => ValueError; unknown
                force_as => ValueError
   wds_garbage  wds_read_signal(key, bytes) for every key suffix (known and unknown) x {all 1-byte
@@ -37,6 +41,9 @@ ASSUMPTIONS = [
     "raw binary has no dtype of its own: `dtype` there is the interpretation (float64 by default), "
     "so only (stored float64, dtype None) and (stored T, dtype T) are in the property's domain",
     "garbage for wds_read_signal is the stated finite family, not all byte strings",
+    "sph_reads: only 16-bit PCM SPHERE is in C11 (mu-law/A-law files come back expanded, i.e. not "
+    "bit-identical to what is stored; they are C12's); file lengths are the stated alphabet around "
+    "the reader's 16384-byte read size, header sizes 1024/1025/1500/2048/4000",
 ]
 
 # ------------------------------------------------------------------ containers
@@ -307,6 +314,131 @@ def _replay_roundtrip(case, seed):
                                         case["stored"], seed, tmp)
         v, _ = _rt_check(case["container"], case["layout"], case["key"], case["which"], case["access"],
                          case["force_as"], case["dtype"], path, dotted, arrays, case)
+    return core.result([v] if v is not None else [])
+
+
+# ------------------------------------------------------------------ SPHERE files of several reads
+
+SPH_READ = 16384          # the reader's fixed read size (src/pydrobert/speech/_sphere.py:copy_samples)
+SPH_KMAX = {"quick": 4, "thorough": 6}
+# 1024 bytes with optional fields; 1025, 1500 and 4000 bytes (not multiples of 1024); 2048 bytes
+# with every mandatory field beyond byte 1024
+SPH_HEADERS = ["extra", "h1025", "h1500", "extra2048", "h4000"]
+SPH_CHANNELS = [1, 2, 3, 4, 5, 6, 7]               # frames of 2..14 bytes; 6, 10, 14 do not divide 16384
+
+
+def _sph_counts(channels, kmax):
+    """frame counts on both sides of each of the first kmax read boundaries: with f = 2*channels
+    bytes per frame and q = 16384 // f: k*q-1, k*q, k*q+1 and floor(k*16384/f)-1 .. +1, k = 1..kmax"""
+    fs = 2 * channels
+    q = SPH_READ // fs
+    out = set()
+    for k in range(1, kmax + 1):
+        for base in (k * q, (k * SPH_READ) // fs):
+            out.update((base - 1, base, base + 1))
+    return sorted(out)
+
+
+def _sph_accesses():
+    # wds_read_signal(key, bytes) has no dtype argument: it is paired with dtype None only
+    return _accesses("sph01") + [("wds", None)]
+
+
+def _sph_file(container, channels, count, header, seed, tmp, cache=None):
+    """-> path, dotted path, bytes, stored array (the sample data is encoded once per point)"""
+    shape = (count,) if channels == 1 else (count, channels)
+    key = (container, channels, count)
+    if cache is None or key not in cache:
+        arr = _values(seed, shape, "int16")
+        body = sph.encode_samples("pcm" + container[3:], arr)
+        if body[:4] == b"ajkg":
+            raise core.HarnessError("sample data starts with the shorten magic")
+        if cache is not None:
+            cache[key] = (arr, body)
+    else:
+        arr, body = cache[key]
+    data = sph.header_variant(header, "pcm" + container[3:], channels, count) + body
+    sub = os.path.join(tmp, header)
+    ddir = os.path.join(sub, "d.npz.dir", "v1.2")
+    os.makedirs(ddir, exist_ok=True)
+    path, dotted = os.path.join(sub, "sig.sph"), os.path.join(ddir, "my.sig.v2.sph")
+    for p in (path, dotted):
+        with open(p, "wb") as f:
+            f.write(data)
+    return path, dotted, data, arr
+
+
+def _sph_check(case, path, dotted, data, arr):
+    from pydrobert.speech import util
+
+    container, ch, access, force, req = (case[k] for k in ("container", "channels", "access", "force_as", "dtype"))
+    if access == "wds":
+        r = _call(lambda: util.wds_read_signal("utt.sph", data))
+    else:
+        r = _read(path, dotted, access, force, req, None)
+    fs = 2 * ch
+    tags = dict(what="sph_reads", container=container,
+                via=("wds" if access == "wds" else "inferred" if force is None else force),
+                stream=(access in ("file", "bytesio", "wds")), frame_divides_16384=(SPH_READ % fs == 0),
+                header_multiple_of_1024=((len(data) - arr.size * 2) % 1024 == 0))
+    desc = "%s %r (%d data bytes = %d reads of 16384) header=%s access=%s force_as=%r dtype=%r" % (
+        container, arr.shape, arr.size * 2, -(-arr.size * 2 // SPH_READ), case["header"], access, force, req)
+    if r[0] == "exc":
+        return core.violation(dict(tags, aspect="exception", exc=type(r[1]).__name__),
+                              "%s: raised %s: %s" % (desc, type(r[1]).__name__, _clean(r[1])), case), "exc"
+    got = r[1]
+    if not isinstance(got, np.ndarray):
+        return core.violation(dict(tags, aspect="type"), "%s: returned %s" % (
+            desc, type(got).__name__), case), "type"
+    want = arr if req is None else arr.astype(req)
+    g, w = got.reshape(-1), want.reshape(-1)
+    n = min(len(g), len(w))
+    neq = np.flatnonzero(g[:n] != w[:n])
+    first = int(neq[0]) if len(neq) else (n if len(g) != len(w) else None)
+    if first is not None or got.shape != want.shape:
+        k = None if first is None else first * 2 // SPH_READ + 1
+        return core.violation(
+            dict(tags, aspect=("shape" if got.shape != want.shape else "values"),
+                 first_bad_in_read=(k if k is None or k < 3 else "3+")),
+            "%s: shape %r, stored %r; first difference at (frame, channel) %r: got %r, stored %r" % (
+                desc, got.shape, want.shape, None if first is None else (first // ch, first % ch),
+                g[first:first + 3].tolist() if first is not None else None,
+                w[first:first + 3].tolist() if first is not None else None), case), "differs"
+    if got.dtype != want.dtype:
+        return core.violation(dict(tags, aspect="dtype"), "%s: dtype %s, expected %s" % (
+            desc, got.dtype, want.dtype), case), "dtype"
+    return None, "ok"
+
+
+def _sph_reads(pt, seed):
+    container, ch, count = pt
+    viol, obs, evals, nontriv = [], set(), 0, 0
+    reads = -(-count * ch * 2 // SPH_READ)
+    cache = {}
+    with _Tmp() as tmp:
+        for header in SPH_HEADERS:
+            path, dotted, data, arr = _sph_file(container, ch, count, header, seed, tmp, cache)
+            for access, force in _sph_accesses():
+                for req in (REQUESTED if access != "wds" else [None]):
+                    case = dict(kind="sph_reads", container=container, channels=ch, count=count,
+                                header=header, access=access, force_as=force, dtype=req)
+                    v, o = _sph_check(case, path, dotted, data, arr)
+                    evals += 1
+                    nontriv += int(reads > 1)
+                    obs.add((o, reads, req))
+                    if v is not None:
+                        viol.append(v)
+    return core.result(viol, evals=evals, nontrivial_count=nontriv, obs=sorted(map(str, obs)),
+                       sample=dict(container=container, channels=ch, count=count, reads=reads,
+                                   headers=SPH_HEADERS, accesses=[list(map(str, a)) for a in _sph_accesses()],
+                                   requested=REQUESTED))
+
+
+def _replay_sph_reads(case, seed):
+    with _Tmp() as tmp:
+        path, dotted, data, arr = _sph_file(case["container"], case["channels"], case["count"],
+                                            case["header"], seed, tmp)
+        v, _ = _sph_check(case, path, dotted, data, arr)
     return core.result([v] if v is not None else [])
 
 
@@ -710,6 +842,8 @@ def _replay(case, seed):
     k = case.get("kind")
     if k == "roundtrip":
         return _replay_roundtrip(case, seed)
+    if k == "sph_reads":
+        return _replay_sph_reads(case, seed)
     if k == "wds":
         return _replay_wds(case, seed)
     return _replay_error(case, seed)
@@ -717,6 +851,8 @@ def _replay(case, seed):
 
 def subchecks(tier, seed):
     rt = [(c, list(s), d) for c, spec in CONTAINERS.items() for s in spec[2] for d in spec[3]]
+    kmax = SPH_KMAX[tier]
+    sr = [(c, ch, n) for c in ("sph01", "sph10") for ch in SPH_CHANNELS for n in _sph_counts(ch, kmax)]
     wds_pts, fams = _wds_points(tier, seed)
     sizes = {n: len(v[1]) for n, v in _seed_files(seed).items()}
     return [
@@ -731,6 +867,22 @@ def subchecks(tier, seed):
                       array_dtypes=ARRAY_DTYPES, requested=REQUESTED,
                       npz_layouts=[list(map(str, l)) for l in _layouts("npz")],
                       hdf5_layouts=[list(map(str, l)) for l in _layouts("hdf5")]),
+            replay=lambda case: _replay(case, seed)),
+        core.SubCheck(
+            "sph_reads", sr, lambda p: _sph_reads(p, seed),
+            "16-bit PCM SPHERE files from mc/refs/sphere.py; per point (byte order, channels 1..7, "
+            "frame count in {k*q-1..k*q+1, floor(k*16384/f)-1..+1 : k=1..%d}, f = frame bytes, q = "
+            "16384//f, i.e. files of 1..%d reads of 16384 bytes) the inner loop is header {1024 bytes with "
+            "optional fields, 1025, 1500 and 4000 bytes, 2048 bytes with every mandatory field beyond "
+            "byte 1024} x "
+            "access {suffix-inferred path, path below dotted directories, path+force_as, open "
+            "file+force_as, BytesIO+force_as, wds_read_signal('utt.sph', bytes)} x requested dtype "
+            "{None,int16,int32,float32,float64} (wds_read_signal takes no dtype: None only): "
+            "array_equal, same shape and dtype as stored.astype(requested); non-trivial = more than "
+            "one read" % (kmax, kmax + 1),
+            axes=dict(container=["sph01", "sph10"], channels=SPH_CHANNELS,
+                      count="k*q-1..k*q+1, floor(k*16384/f)-1..+1, k=1..%d" % kmax, header=SPH_HEADERS,
+                      access=[list(map(str, a)) for a in _sph_accesses()], requested=REQUESTED),
             replay=lambda case: _replay(case, seed)),
         core.SubCheck(
             "errors", _error_points(), lambda p: _errors(p, seed),
